@@ -3,6 +3,7 @@ package sim
 import (
 	"errors"
 	"fmt"
+	"strconv"
 	"time"
 
 	"github.com/d5/tengo/v2"
@@ -30,14 +31,14 @@ type hostBehaviour struct {
 // soloEnv drives host functions while no simulated threads exist (set-up,
 // baselines, single-threaded sweeps): a plain counter, no messages.
 type soloEnv struct {
-	Calls   int      // host calls so far in the current solo run
-	FailAt  int      // 1-based call index that misbehaves (0 = none)
-	FailHow int      // hbErr / hbPanic / hbNil
+	Calls     int // host calls so far in the current solo run
+	FailAt    int // 1-based call index that misbehaves (0 = none)
+	FailHow   int // hbErr / hbPanic / hbNil
 	PanicKind string
-	Log     []HostCallRec
-	Record  bool
-	Only    string // if set, only calls of the function with this name are counted, logged and faulted
-	Boom    int64  // value returned by the "boom" host function (switches planted failure sites on)
+	Log       []HostCallRec
+	Record    bool
+	Only      string // if set, only calls of the function with this name are counted, logged and faulted
+	Boom      int64  // value returned by the "boom" host function (switches planted failure sites on)
 }
 
 // HostCallRec is one host call observed in solo mode.
@@ -83,7 +84,7 @@ func (e *Engine) SoloMarkers(failAt int, boom int64) {
 }
 
 func (e *Engine) SoloLog() []HostCallRec { return e.solo.Log }
-func (e *Engine) SoloCalls() int          { return e.solo.Calls }
+func (e *Engine) SoloCalls() int         { return e.solo.Calls }
 
 // HostFunc builds a simulator-owned host function. Its result is a pure
 // function of its arguments unless the plan injects a fault at this call.
@@ -274,7 +275,9 @@ type customErr struct{ code int }
 func (c *customErr) Error() string { return "custom error " + fmt.Sprint(c.code) }
 
 // hostStringer is a host-provided object type whose String method itself uses
-// tengo's formatter (a format call nested inside a format call).
+// tengo's formatter (a format call nested inside a format call). In episodes
+// with Cfg.PoolShare the method is also a scheduling point: another simulated
+// thread may run whole builtin calls while this one is in the middle of one.
 type hostStringer struct {
 	tengo.ObjectImpl
 	n int64
@@ -282,10 +285,30 @@ type hostStringer struct {
 
 func (h *hostStringer) TypeName() string { return "stringer" }
 func (h *hostStringer) String() string {
+	yieldInside("stringer.String:enter")
+	if h.n%2 == 0 {
+		s := "<" + strconv.FormatInt(h.n, 10) + "|plain>"
+		yieldInside("stringer.String:leave")
+		return s
+	}
 	s, err := tengo.Format("<%d|%s|%5.1f>", &tengo.Int{Value: h.n}, &tengo.String{Value: "in"}, &tengo.Float{Value: 2.5})
+	yieldInside("stringer.String:leave")
 	if err != nil {
 		return "!" + err.Error()
 	}
 	return s
 }
 func (h *hostStringer) Copy() tengo.Object { return &hostStringer{n: h.n} }
+
+// yieldInside parks the calling simulated thread at a Yield site when the
+// running episode asks for it; a no-op anywhere else (solo runs, other episodes).
+func yieldInside(name string) {
+	e := cur.Load()
+	if e == nil || !e.Plan.Cfg.PoolShare || !e.active.Load() {
+		return
+	}
+	a := arrival{gid: curGID(), site: SiteYield, task: -1, name: name}
+	if r := e.park(&a); r.action == actUnwind {
+		panic(unwindSentinel{})
+	}
+}
